@@ -4,6 +4,7 @@ import (
 	"context"
 	"errors"
 	"fmt"
+	"math"
 	"sort"
 	"time"
 
@@ -35,6 +36,10 @@ type PrioSc struct {
 	// ReuseMap: the caller clears and reuses the map it passed as Inputs once the
 	// constructor has returned (the discipline must have taken what it needs).
 	ReuseMap bool `json:"reuse_map,omitempty"`
+	// BadOpt (C19): one option is invalid, the rest valid, so that the constructor must
+	// fail - and leave nothing running: "nil-handle", "nil-divider", "zero-h",
+	// "nil-output", "nil-feedback".
+	BadOpt string `json:"bad_opt,omitempty"`
 	// ReuseKeys: what the caller leaves in the reused map: 0 = a foreign key only,
 	// 1 = nothing, 2 = all but one of the original keys, 3 = the original keys plus a foreign one.
 	ReuseKeys int `json:"reuse_keys,omitempty"`
@@ -236,6 +241,8 @@ func corrupt(priorities []uint, distribution map[uint]uint, delta int) bool {
 var prioSets = [][]uint{
 	{1}, {5}, {2, 1}, {3, 1}, {100, 1}, {3, 2, 1}, {70, 20, 10}, {4, 3, 2, 1}, {1000, 999, 7}, {10, 9}, {5, 5000},
 	{1 << 40, 1 << 20, 3}, {7, 6, 5, 4, 3}, {2, 3}, {9, 1, 5},
+	// the whole uint range is legal: values in its upper half, and zero
+	{math.MaxUint, 2, 1}, {1 << 63, 1<<63 - 1, 5}, {1<<63 + 7, 3}, {3, 0}, {math.MaxUint, math.MaxUint - 1},
 }
 
 // acceptable asks the real v2 constructor (in a throw-away simulated run).
@@ -401,6 +408,12 @@ func genPrio(engine, prop string, r *simrt.SplitMix) *PrioSc {
 	// which the library documents; the run simply ends at its horizon)
 	if prop == "C01" && v1 && sc.Class == "normal" && len(prios) > 1 && r.Intn(6) == 0 {
 		sc.H = between(r, 1, len(prios)-1)
+	}
+
+	// v2 constructors must reject a quantity below the number of priorities (and zero); a
+	// constructor that accepts it anyway is held to the quantity it was given
+	if prop == "C01" && !v1 && sc.Class == "normal" && r.Intn(8) == 0 {
+		sc.H = between(r, 0, len(prios)-1)
 	}
 
 	// shuffle so that input order is not priority order
@@ -765,6 +778,17 @@ func genPrio(engine, prop string, r *simrt.SplitMix) *PrioSc {
 
 	if sc.plain() && (sc.Class == "normal" || sc.Class == "fault" || sc.Class == "dynamic" || sc.Class == "stop") && (r.Intn(4) == 0 || sc.H >= 40) {
 		sc.Dispatch = true
+	}
+
+	if prop == "C19" && r.Intn(12) == 0 {
+		switch engine {
+		case "simple2", "simple1":
+			sc.BadOpt = pick(r, "nil-handle", "nil-handle", "nil-divider", "zero-h")
+		case "prio2":
+			sc.BadOpt = pick(r, "nil-divider", "zero-h")
+		default:
+			sc.BadOpt = pick(r, "nil-divider", "zero-h", "nil-output", "nil-feedback")
+		}
 	}
 
 	sc.ReuseMap = r.Intn(4) == 0
@@ -1151,9 +1175,26 @@ func buildPrio(sc *PrioSc) (simrt.Config, func()) {
 			cancel()
 		}
 
+		var (
+			optDivV2   div2.Divider  = divV2
+			optDivV1   prio1.Divider = divV1
+			optHandle1               = handle
+			optHandle2               = func(item int) { handle(nil, item) }
+			optH                     = uint(sc.H)
+		)
+
+		switch sc.BadOpt {
+		case "nil-handle":
+			optHandle1, optHandle2 = nil, nil
+		case "nil-divider":
+			optDivV2, optDivV1 = nil, nil
+		case "zero-h":
+			optH = 0
+		}
+
 		switch sc.Engine {
 		case "prio2":
-			dsc, err := prio2.New(prio2.Opts[int]{Divider: divV2, HandlersQuantity: uint(sc.H), Inputs: inputs})
+			dsc, err := prio2.New(prio2.Opts[int]{Divider: optDivV2, HandlersQuantity: optH, Inputs: inputs})
 			if err != nil {
 				newErr(err)
 				return
@@ -1164,7 +1205,7 @@ func buildPrio(sc *PrioSc) (simrt.Config, func()) {
 			h.release = func(p uint, _ <-chan struct{}) bool { dsc.Release(p); return true }
 			h.errCh = dsc.Err()
 		case "simple2":
-			dsc, err := simple2.New(simple2.Opts[int]{Divider: divV2, Handle: func(item int) { handle(nil, item) }, HandlersQuantity: uint(sc.H), Inputs: inputs})
+			dsc, err := simple2.New(simple2.Opts[int]{Divider: optDivV2, Handle: optHandle2, HandlersQuantity: optH, Inputs: inputs})
 			if err != nil {
 				newErr(err)
 				return
@@ -1177,7 +1218,16 @@ func buildPrio(sc *PrioSc) (simrt.Config, func()) {
 			simrt.NameSend(outV1, "output")
 			simrt.NameRecv(fb, "feedback")
 
-			dsc, err := prio1.New(prio1.Opts[int]{Ctx: optCtx, Divider: divV1, Feedback: fb, HandlersQuantity: uint(sc.H), Inputs: inputs, Output: outV1})
+			optOut, optFb := outV1, fb
+
+			switch sc.BadOpt {
+			case "nil-output":
+				optOut = nil
+			case "nil-feedback":
+				optFb = nil
+			}
+
+			dsc, err := prio1.New(prio1.Opts[int]{Ctx: optCtx, Divider: optDivV1, Feedback: optFb, HandlersQuantity: optH, Inputs: inputs, Output: optOut})
 			if err != nil {
 				newErr(err)
 				return
@@ -1189,7 +1239,7 @@ func buildPrio(sc *PrioSc) (simrt.Config, func()) {
 			h.remove = dsc.RemoveInput
 			h.errCh = dsc.Err()
 		case "simple1":
-			dsc, err := prio1.NewSimple(prio1.SimpleOpts[int]{Ctx: optCtx, Divider: divV1, Handle: handle, HandlersQuantity: uint(sc.H), Inputs: inputs})
+			dsc, err := prio1.NewSimple(prio1.SimpleOpts[int]{Ctx: optCtx, Divider: optDivV1, Handle: optHandle1, HandlersQuantity: optH, Inputs: inputs})
 			if err != nil {
 				newErr(err)
 				return
